@@ -26,9 +26,11 @@ WORLD_INFO = {'real': ['ResponseFuture (PreparedQueryNotFound branch, _reprepare
               'stub': ['libev C binding', 'sockets/TCP', 'ThreadPoolExecutor', 'fake nodes with a per-node prepared cache (independent codec)']}
 ASSUMPTIONS = ['prepared ids are md5(keyspace|query) at the fake node; for protocol 4 the keyspace is the connection keyspace']
 REQUIRED_PROBES = ['prepared_in_other_keyspace', 'unprepared_answer', 'reprepare_ok', 'reprepare_different_id', 'reprepare_error', 'reprepare_conn_loss',
-                   'keyspace_changed_after_prepare', 'statement_id_dropped_from_registry']
+                   'keyspace_changed_after_prepare', 'statement_id_dropped_from_registry',
+                   'reprepare_returns_id_of_another_live_statement']
 
 QUERY = "SELECT * FROM t WHERE k=? /*stmt*/"
+OTHER_QUERY = "SELECT * FROM t WHERE k=? /*other*/"
 
 
 def prepare():
@@ -55,7 +57,7 @@ def gen_plan(rng, tier):
         rng.shuffle(order)
         p['requests'].append({'thread': 0, 'plan': order, 'idempotent': True, 'sync': True,
                               'lost': rng.choice(['evict', 'evict', 'scripted', 'none']),
-                              'reprepare': rng.choice(['ok', 'ok', 'ok', 'error', 'different_id', 'close']),
+                              'reprepare': rng.choice(['ok', 'ok', 'ok', 'error', 'different_id', 'other_id', 'close']),
                               'exec_delay': rng.choice([0.002, 0.03]), 'timeout': rng.choice([5.0, 5.0, None]),
                               'decisions': [[RETRY_NEXT_HOST, None]] * 3})
     if p['ks_switch']:
@@ -94,6 +96,14 @@ def run_plan(plan, seed, choices=None):
                 ps2 = session.prepare(QUERY, keyspace=plan.get('prepare_ks')) if plan.get('prepare_ks') else session.prepare(QUERY)
                 del ps2
                 sim.probe('statement_id_dropped_from_registry')
+            except Exception as e:
+                st['prepare_error'] = repr(e)
+                return
+        if any(r['reprepare'] == 'other_id' for r in plan['requests']):
+            # another statement of the application, alive for the whole run: its id is what an 'other_id' re-prepare returns
+            try:
+                st['ps_other'] = session.prepare(OTHER_QUERY, keyspace=plan.get('prepare_ks')) if plan.get('prepare_ks') else session.prepare(OTHER_QUERY)
+                fc.other_query = OTHER_QUERY
             except Exception as e:
                 st['prepare_error'] = repr(e)
                 return
@@ -203,8 +213,8 @@ def run_plan(plan, seed, choices=None):
                       % (i, u['node'], nxt[0]['node'] if nxt else None))
             if out_kind != 'ok' or not o.result[1] or o.result[1][0][0] != i:
                 V.add('C19/reprepare', 'request-failed-after-reprepare', 'request %d: outcome %r after a successful re-prepare' % (i, o.result))
-        elif beh == 'different_id':
-            sim.probe('reprepare_different_id')
+        elif beh in ('different_id', 'other_id'):
+            sim.probe('reprepare_different_id' if beh == 'different_id' else 'reprepare_returns_id_of_another_live_statement')
             V.check('C19/mismatch')
             if out_type != 'DriverException':
                 V.add('C19/mismatch', 'id-mismatch-not-reported', 'request %d: re-prepare returned a different id, outcome %r' % (i, o.result))
